@@ -719,6 +719,17 @@ impl Machine {
         obj.insert("loc".into(), json!(LAST_PANIC.with(|c| c.borrow().clone())));
       }
     }
+    // the lazily sorted index of a ReplaceSource held in the register the
+    // step worked on, as it is after the step (hook verif_index; IndexM)
+    let reg = step
+      .get("r")
+      .or_else(|| step.get("dst"))
+      .and_then(|v| v.as_u64())
+      .map(|v| v as usize);
+    if let Some(Some(Val::Replace(src))) = reg.and_then(|r| self.regs.get(r)) {
+      let (flag, idx) = src.verif_index();
+      obj.insert("ix".into(), json!({"flag": flag, "idx": idx}));
+    }
     rec
   }
 }
